@@ -1,7 +1,7 @@
 (* C10 - Element transforms are the documented affine maps and compose correctly.
    Theorem-only file: every proof is `exact <lemma>`; Print Assumptions under each.
    Model: Affine.v (exact, over Q; angles as rational (cos, sin) pairs). *)
-From Coq Require Import QArith List.
+From Coq Require Import QArith Qabs List.
 Require Import Affine AffineProofs.
 Import ListNotations.
 Open Scope Q_scope.
@@ -113,36 +113,42 @@ Theorem c10_flexpath_rotate_centre : forall a center f e k c0 c1,
 Proof. exact flexpath_rotate_centre_lemma. Qed.
 Print Assumptions c10_flexpath_rotate_centre.
 
-(* FlexPath::transform: right without reflection and with a non-negative magnification ... *)
-Theorem c10_flexpath_transform_centre_partial : forall T f e k c0 c1,
-  angle_ok (p_rot T) -> p_xrefl T = false -> 0 <= p_mag T ->
-  fp_centres f e k c0 c1 ->
-  fp_centres (flexpath_transform T f) e k (aff_apply (placement_map T) c0) (aff_apply (placement_map T) c1).
-Proof. exact flexpath_transform_centre_partial. Qed.
-Print Assumptions c10_flexpath_transform_centre_partial.
-
-(* ... and REFUTED in general (finding F7) *)
-Theorem c10_flexpath_transform_refuted :
-  exists T f e k c0 c1,
-    angle_ok (p_rot T) /\ fp_centres f e k c0 c1 /\
-    ~ fp_centres (flexpath_transform T f) e k (aff_apply (placement_map T) c0) (aff_apply (placement_map T) c1).
-Proof. exact flexpath_transform_refuted. Qed.
-Print Assumptions c10_flexpath_transform_refuted.
-
-Theorem c10_flexpath_transform_negative_magnification_refuted :
-  exists T f e k c0 c1,
-    angle_ok (p_rot T) /\ p_xrefl T = false /\ fp_centres f e k c0 c1 /\
-    ~ fp_centres (flexpath_transform T f) e k (aff_apply (placement_map T) c0) (aff_apply (placement_map T) c1).
-Proof. exact flexpath_transform_negative_magnification_refuted. Qed.
-Print Assumptions c10_flexpath_transform_negative_magnification_refuted.
-
-(* the map that would be right *)
-Theorem c10_flexpath_transform_required_centre : forall T f e k c0 c1,
+(* FlexPath::transform (as repaired by df9071a): every magnification, both reflection states, every angle *)
+Theorem c10_flexpath_transform_centre : forall T f e k c0 c1,
   angle_ok (p_rot T) ->
   fp_centres f e k c0 c1 ->
-  fp_centres (flexpath_transform_required T f) e k (aff_apply (placement_map T) c0) (aff_apply (placement_map T) c1).
-Proof. exact flexpath_transform_required_centre_lemma. Qed.
-Print Assumptions c10_flexpath_transform_required_centre.
+  fp_centres (flexpath_transform T f) e k (aff_apply (placement_map T) c0) (aff_apply (placement_map T) c1).
+Proof. exact flexpath_transform_centre_lemma. Qed.
+Print Assumptions c10_flexpath_transform_centre.
+
+(* half widths times |mag| iff scale_width, offsets times r*|mag|, extensions times |mag| *)
+Theorem c10_flexpath_transform_params : forall T f,
+  fp_elems (flexpath_transform T f) =
+  map (fe_map (fun wo => V2 (vx wo * (if fp_scale_width f then Qabs (p_mag T) else 1))
+                            (vy wo * (if p_xrefl T then - Qabs (p_mag T) else Qabs (p_mag T))))
+              (fun x => vscale x (Qabs (p_mag T)))) (fp_elems f).
+Proof. exact flexpath_transform_params_lemma. Qed.
+Print Assumptions c10_flexpath_transform_params.
+
+(* the code before the repair did not have the property (finding F7, fixed) *)
+Theorem c10_flexpath_transform_unrepaired_refuted :
+  exists T f e k c0 c1,
+    angle_ok (p_rot T) /\ fp_centres f e k c0 c1 /\
+    ~ fp_centres (flexpath_transform_unrepaired T f) e k (aff_apply (placement_map T) c0) (aff_apply (placement_map T) c1).
+Proof. exact flexpath_transform_unrepaired_refuted. Qed.
+Print Assumptions c10_flexpath_transform_unrepaired_refuted.
+
+(* end extensions scale by the magnitude of the factor (a1ca73a) *)
+Theorem c10_flexpath_extensions : forall o f,
+  Forall2 veq (map fe_ext (fp_elems (flexpath_apply_op o f)))
+              (map (fun el => vscale (fe_ext el) (op_factor o)) (fp_elems f)).
+Proof. exact flexpath_op_extensions_lemma. Qed.
+Print Assumptions c10_flexpath_extensions.
+
+Theorem c10_robustpath_extensions : forall o r,
+  Forall2 veq (rp_exts (rp_apply_op o r)) (map (fun e => vscale e (op_factor o)) (rp_exts r)).
+Proof. exact robustpath_op_extensions_lemma. Qed.
+Print Assumptions c10_robustpath_extensions.
 
 Theorem c10_robustpath_op_centre : forall o r x g ov c,
   op_ok o -> rp_centre r x g ov c -> rp_centre (rp_apply_op o r) x g ov (aff_apply (op_map o) c).
